@@ -47,3 +47,45 @@ Theorem C10_list_item_budget : forall o L a ch line,
                              line = pre ++ l /\ len pre = prepend.
 Proof. exact list_item_budget. Qed.
 Print Assumptions C10_list_item_budget.
+
+(* Clauses 1 and 4 of the property, PROVED for paragraphs of plain words and EVERY maximum line length
+   (Proofs/ReflowProse.v): a word is plain when it holds no white space and none of the inline trigger characters and
+   begins with a character that can start neither a block, a list item nor a setext underline (so that it may begin a
+   line).  With a limit the renderer writes the paragraph as lines that are groups of its words (word_lines); that
+   text parses to ONE paragraph holding those lines; its HTML is the original's with newlines where some of the
+   spaces were (joining the lines' escaped texts by spaces gives back the original's escaped text); and reflowing the
+   reflowed paragraph with the same limit gives the same lines. *)
+From Mistletoe Require Import Model.Tree Model.HtmlRenderer Model.Parser Proofs.PlainProse Proofs.ProseLines Proofs.ReflowProse.
+Local Open Scope Z_scope.
+
+Theorem C10_plain_words_reflow : forall ws lim cfg o,
+  ws <> [] -> Forall (fun w => word_okb w = true) ws -> quiet_config cfg = true -> prose_config cfg = true ->
+  let T := join SP ws in
+  let out := word_lines lim ws in
+  (* what the renderer writes with the limit *)
+  block_lines (mkMopts false) (Some lim) (Paragraph [RawText T]) = out /\
+  fst (fst (parse_lines cfg [T ++ [10]])) = Document [Paragraph [RawText T]] /\
+  (* the reflowed text parses to one paragraph of those lines ... *)
+  fst (fst (parse_lines cfg (nl_lines out))) = Document [Paragraph (prose_toks out)] /\
+  (* ... with the same meaning up to the position of soft line breaks *)
+  render_html o (fst (fst (parse_lines cfg [T ++ [10]]))) = $"<p>" ++ escape_html_text o T ++ $"</p>" ++ [10] /\
+  render_html o (fst (fst (parse_lines cfg (nl_lines out)))) = $"<p>" ++ join [10] (map (escape_html_text o) out) ++ $"</p>" ++ [10] /\
+  join SP (map (escape_html_text o) out) = escape_html_text o T /\
+  (* and reflowing again changes nothing *)
+  block_lines (mkMopts false) (Some lim) (Paragraph (prose_toks out)) = out.
+Proof.
+  intros ws lim cfg o Hne Hws Hq Hp T out.
+  destruct (reflow_parses ws lim Hne Hws cfg Hq Hp) as [P1 P2].
+  destruct (reflow_same_meaning ws lim Hne Hws cfg o Hq Hp) as (M1 & M2 & M3).
+  repeat split; try assumption; [apply (reflow_lines ws lim Hne Hws)|apply (reflow_idempotent ws lim Hne Hws)].
+Qed.
+Print Assumptions C10_plain_words_reflow.
+
+Theorem C10_plain_words_instance :
+  let ws := [ $"Lorem"; $"ipsum,"; $"(dolor)"; $"sit"; $"amet;"; $"a.b"; $"c:d"; $"e%f"; $"verylongword" ] in
+  forallb word_okb ws = true /\
+  word_lines 12 ws = [ $"Lorem ipsum,"; $"(dolor) sit"; $"amet; a.b"; $"c:d e%f"; $"verylongword" ] /\
+  word_okb ($"2") = false /\ word_okb ($"-") = false /\ word_okb ($"=") = false /\ word_okb ($"a*b") = false /\
+  quiet_config cfg_markdown && prose_config cfg_markdown && quiet_config cfg_html && prose_config cfg_html = true.
+Proof. vm_compute. repeat split; reflexivity. Qed.
+Print Assumptions C10_plain_words_instance.
